@@ -9,36 +9,36 @@ DIFF = "differential monitor against an independent executable model"
 CHECKS = {
  "C01": ("crash/UB oracle under hostile input: in-process panic capture + worker-process boundary (abort, signal, stall) + macroblock-loop progress hook; overflow-checked, release and ASan builds (thorough: + Miri, valgrind memcheck, libFuzzer)",
          "Held-on-observed: every decode call of every generated hostile history returned Ok/Err without panic, abort, sanitizer report or a non-consuming loop iteration. Reach comes from structure-aware hostile generation (mutated valid pictures, semantic extremes, random bytes) over all four option combinations and multi-call histories; it is sampling, not proof.", "3 C01"),
- "C02": (DIFF + " (spec-derived encoder + f64 reconstruction) on generated valid intra pictures; overflow-checked and release builds",
+ "C02": (DIFF + " (spec-derived encoder + f64 reconstruction) on generated valid intra pictures; overflow-checked and release builds (thorough: + coverage-guided libFuzzer campaign on the case generator's decision tape)",
          "Held-on-observed: every generated valid intra picture decoded to exactly the model's planes (one-off differences only inside the stated rounding-boundary window). Tables are typed in from the standard and cross-checked codeword by codeword against the real tree walker.", "3 C02"),
- "C03": (DIFF + ": one-step motion-compensated prediction from the planes the decoder actually produced for the reference, plus residual; generated P-picture chains",
+ "C03": (DIFF + ": one-step motion-compensated prediction from the planes the decoder actually produced for the reference, plus residual; generated P-picture chains with interludes (rejected inputs, disposable pictures) (thorough: + coverage-guided libFuzzer campaign on the case generator's decision tape)",
          "Held-on-observed over generated chains: all macroblock types, half-sample phases, vectors leaving the picture, truncation and missing-reference rejection were observed and matched.", "3 C03"),
- "C04": ("history checked against a two-register sequential model (last / reference); content-identified predictions over every earlier picture",
+ "C04": ("history checked against a two-register sequential model (last / reference); content-identified predictions over every earlier picture, get_reference_picture() compared after every step (thorough: + coverage-guided libFuzzer campaign on the case generator's decision tape)",
          "Held-on-observed: in every generated history (bounded-exhaustive short ones + random long ones, five temporal-reference policies) each predicted picture was explained by the model's reference picture and by no other stored picture, and the most recent picture always equalled the model's.", "3 C04"),
- "C05": ("twin-run comparison + snapshot/rollback checks + growing-source split delivery (fault injection at chosen syntax depth)",
+ "C05": ("twin-run comparison + snapshot/rollback checks + growing-source split delivery (fault injection at chosen syntax depth) (thorough: + coverage-guided libFuzzer campaign on the case generator's decision tape)",
          "Held-on-observed: for every injected failure (header / macroblock header / block data / prediction / truncation) the decoder that saw it stayed indistinguishable from its twin, the shared reader was back at its pre-call bit position, and every byte split point retried to the one-shot result.", "3 C05"),
- "C06": (DIFF + " of the picture headers: per-field exhaustive sweeps, OPPTYPE/PTYPE bit-pattern sweeps, CPFMT sweep, random combinations, inheritance pairs, marker flips; exact consumed-bit count via the reader-position hook",
+ "C06": (DIFF + " of the picture headers: per-field exhaustive sweeps, OPPTYPE/PTYPE bit-pattern sweeps, CPFMT sweep, random combinations, inheritance pairs and header chains, marker flips, decoder-level histories; exact consumed-bit count via the reader-position hook",
          "Held-on-observed except the recorded finding (ETR/TRB width with an inherited custom picture clock): every other generated header was reported field for field and consumed exactly its bits; every single marker-bit flip was rejected.", "3 C06"),
  "C07": ("exhaustive enumeration of all 2^24 colours through both code paths of the real converter, compared with a fixed-point model whose coefficients are computed from the BT.601 constants",
          "Exhaustive on both tiers for the finite domain (every triple through the vector body and through the remainder path); thorough repeats slices under ASan and Miri.", "3 C07"),
  "C08": (DIFF + " over a dense width x height box and strips; overflow-checked, release, ASan and Miri builds",
-         "Held-on-observed for every size in the box (all residues mod 4 / mod 2, 1-pixel rows/columns) with three fills; the SIMD and bytemuck paths also ran under Miri and ASan.", "3 C08"),
+         "Held-on-observed for every size in the box (all residues mod 4 / mod 2, 1-pixel rows/columns) with seven fills, strips and widths up to 2^24 (2^25 thorough); the SIMD and bytemuck paths also ran under Miri and ASan.", "3 C08"),
  "C09": (DIFF + " (scalar edge-by-edge Annex J) through deblock() only: kernel patterns in vector lanes and scalar remainders of both passes, dense geometry box; chk, release, ASan, Miri",
-         "Held-on-observed: quick covers a 2^20 lattice plus ~2 M scrambled patterns x 12 strengths x both paths and every size in 1..40; thorough enumerates all 2^32 patterns x 12 strengths through the horizontal-edge path.", "3 C09"),
- "C10": ("Annex A (IEEE 1180) statistical accuracy procedure run on the hooked channel IDCT, plus peak-error checks of the sparse-block shortcuts",
+         "Held-on-observed: quick covers a 2^20 lattice plus ~2 M scrambled patterns x 12 strengths x both paths and every size in 1..40 with eight contents; thorough enumerates all 2^32 patterns x 12 strengths through the horizontal-edge path.", "3 C09"),
+ "C10": ("Annex A (IEEE 1180) statistical accuracy procedure run on the hooked channel IDCT, plus peak-error checks of the sparse-block shortcuts, mixed block sequences and cropped block grids",
          "Held-on-observed: the five Annex A statistics for the six prescribed data sets (and further generator seeds) are within bounds; all DC-only blocks and random row/column blocks obey the peak bound.", "3 C10"),
  "C11": ("exhaustive enumeration at three observation stages: block parser (events), hooked dequantiser (exact coefficients), end-to-end pictures (samples)",
-         "Stage B is exhaustive over 31 x 2046 x (64+63) cases; stages A and C enumerate all codable events / INTRADC codes / DQUANT updates.", "3 C11"),
+         "Stage B is exhaustive over 31 x 2046 x (64+63) cases; stages A and C enumerate all codable events / INTRADC codes / DQUANT updates, DQUANT chains of length 2-3 and Sorenson version-mix histories.", "3 C11"),
  "C12": ("exhaustive directed P pictures over an identifiable textured reference (zero residual), compared with the model prediction",
-         "Exhaustive for the 64 x 64 predictor/differential pairs per component and all four-vector sums; neighbour configurations are enumerated by class with random vectors.", "3 C12"),
+         "Exhaustive for the 64 x 64 predictor/differential pairs per component and all four-vector sums; neighbour configurations are enumerated by class with random vectors; wide pictures and mode histories are sampled.", "3 C12"),
  "C13": ("end-to-end pipeline monitor (decode -> deblock x3 -> convert) over every picture size in a dense box; chk (debug assertions live), release, ASan",
-         "Held-on-observed for every size in the box and the fixed formats, intra and predicted pictures.", "3 C13"),
+         "Held-on-observed for every size in the box and the fixed formats, intra and predicted pictures, second pictures of another size on the same decoder, and a sample-count ladder beyond 2^24.", "3 C13"),
  "C14": ("operation histories checked in lockstep against a bit-vector sequential model, with the reader-position hook; bounded-exhaustive short sequences + random trees",
          "Held-on-observed: every value, error and absolute position agreed with the model; start-code recognition judged on the property's own terms.", "3 C14"),
- "C15": ("twin-run comparison (shared reader vs one reader per picture) + reader-position window check after every call",
-         "Held-on-observed for generated sequences of 2-8 pictures in both modes with all eight end-of-data bit phases.", "3 C15"),
+ "C15": ("twin-run comparison (shared reader vs one reader per picture) + reader-position window check after every call (thorough: + coverage-guided libFuzzer campaign on the case generator's decision tape)",
+         "Held-on-observed for generated sequences of 2-8 pictures in both modes with all eight end-of-data bit phases (standard mode also with early-ending and format-less pictures).", "3 C15"),
  "C16": ("exhaustive enumeration of width x height x strength through deblock() (no panic, same length, equals Annex J) + Table J.2 comparison; chk, release, ASan, Miri",
-         "Exhaustive over the stated box (1..72 x 0..72 x 12 quick; 1..300 x 0..300 x 12 thorough) and all 31 table entries.", "3 C16"),
+         "Exhaustive over the stated box (1..72 x 0..72 x 12 quick; 1..300 x 0..300 x 12 thorough) with random and full-contrast content, all 31 table entries; a sample-count ladder up to 67 M samples is sampled.", "3 C16"),
  "C17": ("replica comparison under multi-threaded stress with seed-driven delays and cross-process baselines; Miri (many scheduler seeds) and ThreadSanitizer as race detectors",
          "Held-on-observed: all replicas on 2/4/16 threads, a second in-process pass and two fresh processes produced the baseline digests; no data race was reported by Miri (quick) or TSan (thorough). Schedules are sampled, not enumerated.", "3 C17"),
 }
